@@ -134,6 +134,7 @@ def check_host(ctx, r, res):
 
 
 def search(ctx):
+    G.check_generate_mul(ctx, [(n, m) for n in range(1, 5) for m in range(1, 5)] + ([(5, 5), (6, 3), (3, 6)] if ctx.tier == 'thorough' else [(5, 4)]))
     rng = ctx.rng('search')
     prng = random.Random(ctx.seed + 17)
     # (1) bare circuits: every mode on a grid of width pairs
